@@ -184,7 +184,7 @@ def coq_eval(sources, timeout=900, tag="case", soft=60, line_timeout=30):
                 if q.returncode != 0:
                     raise HarnessError("coqc failed on %s (exit %d): %s" % (g, q.returncode, (q.stderr[-1500:] + "\n" + q.stdout[-300:])))
                 return q.stdout
-            with ThreadPoolExecutor(max_workers=max(2, NCPU // 2)) as ex2:
+            with ThreadPoolExecutor(max_workers=2) as ex2:
                 return "".join(ex2.map(one, list(enumerate(evals))))
         if p.returncode != 0:
             raise HarnessError("coqc failed on %s (exit %d): %s" % (f, p.returncode, (p.stderr[-1500:] + "\n" + p.stdout[-300:])))
